@@ -531,3 +531,10 @@ PROPS["C16"]["suites"]["client_mt"] = {"kind": "oracle", "nvh_suite": "client_mt
 PROPS["C16"]["level_note"] += (" Thread interleavings inside the engine (the pending table's lock, drop guards running on several worker threads) are "
                                "outside the model; the client_mt suite searches them by stress on a multi-thread runtime in real time — support for finding a "
                                "failing history, not part of the proof.")
+
+
+# C12: replies that do not fit max_message_size are replaced by ERROR RESPONSE_TOO_LARGE with the same id (connection loop; oracle-only)
+PROPS["C12"]["suites"]["toolarge"] = {"kind": "oracle", "nvh_suite": "toolarge", "cases": {"quick": 60, "thorough": 3000}, "oracle_tags": ["C12"]}
+PROPS["C12"]["assumptions"] = ["requests are handled to quiescence one at a time (sequential model); pipelining and request timeouts are decided under C13 and by the lat suite",
+                               "the RESPONSE_TOO_LARGE substitution of the connection loop is outside the Lean model; it is checked on the real server by the "
+                               "toolarge suite (exactly one frame per id, the substituted ERROR carries the id, the connection stays open)"]
